@@ -13,8 +13,11 @@ from .compdb import VERIF
 MUTANTS = os.path.join(VERIF, 'selftest', 'mutants.json')
 
 
-def _run_check(pid, repo, cache):
+def _run_check(pid, repo, cache, config=None):
     env = dict(os.environ, SVT_REPO=repo, SVT_CACHE=cache, VERIF_EVID_DIR=os.path.join(cache, 'evid'), VERIF_TIER='quick')
+    env.pop('VERIF_ALT_CONFIG', None)
+    if config:
+        env['VERIF_ALT_CONFIG'] = config  # the mutated code is only parsed in that alternative configuration
     r = subprocess.run([sys.executable, os.path.join(VERIF, 'check'), pid, '--tier', 'quick'], capture_output=True, text=True, env=env)
     viol = [l[11:].split(' at ', 1)[0] for l in r.stdout.splitlines() if l.startswith('violation:')]
     return r.returncode, viol, r.stdout[-1500:] + r.stderr[-500:]
@@ -37,8 +40,11 @@ def run_mutants(pid, note=print):
     try:
         subprocess.check_call(['git', '-C', '/repo', 'worktree', 'add', '--detach', wt, 'HEAD'], stdout=subprocess.DEVNULL, stderr=subprocess.DEVNULL)
         rc0, base, out0 = _run_check(pid, wt, cache)
-        base = set(base)
+        base = {None: set(base)}
         for m in muts:
+            cfg = m.get('config')
+            if cfg not in base:
+                base[cfg] = set(_run_check(pid, wt, cache, cfg)[1])
             p = os.path.join(wt, m['file'])
             src = open(p).read()
             if src.count(m['old']) != 1:
@@ -46,10 +52,10 @@ def run_mutants(pid, note=print):
                 continue
             open(p, 'w').write(src.replace(m['old'], m['new']))
             try:
-                rc, viol, out = _run_check(pid, wt, cache)
+                rc, viol, out = _run_check(pid, wt, cache, cfg)
             finally:
                 subprocess.run(['git', '-C', wt, 'checkout', '-q', '--', '.'])
-            new = [v for v in viol if v not in base]
+            new = [v for v in viol if v not in base[cfg]]
             results.append({'mutant': m['id'], 'what': m.get('what', ''), 'status': 'caught' if new else ('analysis-broken' if rc == 2 else 'missed'),
                             'reported': new[:3]})
         for s in seeds:
@@ -63,7 +69,7 @@ def run_mutants(pid, note=print):
             finally:
                 subprocess.run(['git', '-C', wt, 'checkout', '-q', '--', '.'])
                 subprocess.run(['git', '-C', wt, 'clean', '-fdq'])
-            new = [v for v in viol if v not in base]
+            new = [v for v in viol if v not in base[None]]
             results.append({'mutant': 'seeded/' + s, 'status': 'caught' if new else ('analysis-broken' if rc == 2 else 'missed'), 'reported': new[:3]})
     finally:
         subprocess.run(['git', '-C', '/repo', 'worktree', 'remove', '--force', wt], stdout=subprocess.DEVNULL, stderr=subprocess.DEVNULL)
